@@ -7,10 +7,16 @@
     Spec/FlagSet.v (set algebra) and Spec/FlagHistory.v ([spec_step],
     [classify]).  [silent] and the three data items are universally
     quantified; "UID form" = [OUidStore].  A later session sees the table
-    ([links]) and nothing else: every query below is a function of [links]. *)
+    ([links]) and nothing else: every query below is a function of [links].
+
+    State of the code: /repo after the fix wave (fixes/01..05).  The classes
+    examine_writes, same_mailbox_copy, junk_shift, junk_noop and
+    substring_query are repaired: (d) and (b) hold without any side condition,
+    (a) and (c) hold outside the one remaining class, the Junk/NonJunk
+    auto-move ([junk_class]). *)
 From Coq Require Import String Ascii List Bool Arith ZArith.
 From Raven Require Import Base.GoStr Model.Flags Spec.FlagSet Proof.Flags Model.FlagStore Spec.FlagHistory
-     Spec.FlagOracle Proof.FlagStore Proof.FlagStoreSeq Proof.FlagQueries Proof.FlagJoin Proof.FlagRefute.
+     Spec.FlagOracle Proof.FlagStore Proof.FlagStoreSeq Proof.FlagQueries Proof.FlagRefute.
 Import ListNotations.
 Local Open Scope Z_scope.
 
@@ -24,7 +30,9 @@ Theorem c10_apply_exact : forall (cur new : list str) (s : str) (it : item),
 Proof. exact calculate_new_flags_exact. Qed.
 Print Assumptions c10_apply_exact.
 
-(** (a, addressing) UID STORE / UID STORE .SILENT outside the listed classes:
+(** (a, addressing) UID STORE / UID STORE .SILENT that re-files no message
+    (the only remaining class; a same-mailbox copy, Junk inside Spam, NonJunk
+    inside INBOX are all covered):
     every row keeps its place, message, mailbox and uid; the rows of the
     selected mailbox whose uid the set denotes get exactly the set algebra;
     every other row is literally unchanged; nothing else of the store changes. *)
@@ -77,8 +85,10 @@ Theorem c10_history_exact : forall e h s,
 Proof. exact history_exact. Qed.
 Print Assumptions c10_history_exact.
 
-(** (c) flags of a copy are independent: a STORE never touches a row outside
-    the selected mailbox; a copy starts with the original's flags (+ \Recent) *)
+(** (c) flags of a copy are independent: a copy is a row of its own key, so
+    the two theorems above apply to it like to any row (also inside the same
+    mailbox); a STORE never touches a row outside the selected mailbox; a copy
+    starts with the original's flags + \Recent *)
 Theorem c10_copy_independent : forall e s o mb,
   uniq_keys (links s) -> classify e s o = None ->
   (exists si q item new, o = OStore false si mb q item new \/ o = OUidStore false si mb q item new) ->
@@ -86,8 +96,7 @@ Theorem c10_copy_independent : forall e s o mb,
 Proof. exact store_other_mailbox_untouched. Qed.
 Print Assumptions c10_copy_independent.
 
-Theorem c10_copy_flags : forall fl f,
-  In f (copy_flags fl) <-> In f fl \/ (f = RECENT /\ flags_contain fl RECENT = false).
+Theorem c10_copy_flags : forall fl f, In f (copy_flags fl) <-> In f fl \/ f = RECENT.
 Proof. exact copy_flags_spec. Qed.
 Print Assumptions c10_copy_flags.
 
@@ -97,41 +106,24 @@ Theorem c10_fetch_reports_table : forall ls mb u fl,
 Proof. exact view_iff. Qed.
 Print Assumptions c10_fetch_reports_table.
 
-(** (b) SEARCH by flag is set membership when no stored atom of the mailbox
-    properly contains the queried flag *)
-Theorem c10_flag_queries_exact : forall ls mb k,
-  (forall l q, In l ls -> lk_mbox l = mb -> In q (key_atoms k) -> no_proper_super (lk_flags l) q = true) ->
-  search ls mb k = spec_search ls mb k.
+(** (b) SEARCH by flag, STATUS UNSEEN and [UNSEEN n] are set membership of the
+    queried flag, for every table and every key (no side condition) *)
+Theorem c10_flag_queries_exact : forall ls mb k, search ls mb k = spec_search ls mb k.
 Proof. exact search_exact. Qed.
 Print Assumptions c10_flag_queries_exact.
 
-(** (b) STATUS UNSEEN and [UNSEEN n], same guard up to ASCII case (LIKE) *)
 Theorem c10_unseen_exact : forall ls mb,
-  (forall l, In l ls -> lk_mbox l = mb -> no_proper_super_ci (lk_flags l) SEEN = true) ->
   unseen_count ls mb = spec_unseen_count ls mb /\ first_unseen ls mb = spec_first_unseen ls mb.
 Proof. exact unseen_exact. Qed.
 Print Assumptions c10_unseen_exact.
 
-(** the substring test on the stored space-joined string is the test on atoms *)
-Theorem c10_contains_join : forall fl q, q <> [] -> ~ In SP q ->
-  contains (join fl [SP]) q = flags_contain fl q.
-Proof. exact contains_join. Qed.
-Print Assumptions c10_contains_join.
+(** (d) STORE, UID STORE, EXPUNGE and CLOSE of a session that opened the
+    mailbox with EXAMINE change nothing, in every state (no side condition) *)
+Theorem c10_examine_never_modifies : forall e s o, read_only_op o -> step e s o = s.
+Proof. exact examine_changes_nothing. Qed.
+Print Assumptions c10_examine_never_modifies.
 
-(** ---- where raven violates the statement: one witness per class ---- *)
-Theorem c10_refuted_examine_writes :
-  refutes ExamineWrites [OAppend 1 [SEEN]] (OStore true false 1 (one 1) IT_ADD [DELETED]) 1.
-Proof. exact refuted_examine_writes. Qed.
-Print Assumptions c10_refuted_examine_writes.
-
-Theorem c10_refuted_junk_shift :
-  refutes JunkShift [OAppend 1 [S_ "a1"]; OAppend 1 [S_ "a2"]; OAppend 1 [S_ "a3"]]
-          (OStore false false 1 [(Some 1, Some 2)] IT_ADD [JUNK]) 1
-  /\ view (links (run env0 st0 [OAppend 1 [S_ "a1"]; OAppend 1 [S_ "a2"]; OAppend 1 [S_ "a3"];
-                                 OStore false false 1 [(Some 1, Some 2)] IT_ADD [JUNK]])) 1 = [(2, [S_ "a2"])].
-Proof. exact refuted_junk_shift. Qed.
-Print Assumptions c10_refuted_junk_shift.
-
+(** ---- where raven still deviates from the statement: the auto-move ---- *)
 Theorem c10_refuted_junk_move :
   refutes JunkMove [OAppend 1 [NONJUNK]] (OUidStore false false 1 (one 1) IT_ADD [JUNK; SEEN]) 1
   /\ view (links (run env0 st0 [OAppend 1 [NONJUNK]; OUidStore false false 1 (one 1) IT_ADD [JUNK; SEEN]])) 5
@@ -139,41 +131,49 @@ Theorem c10_refuted_junk_move :
 Proof. exact refuted_junk_move. Qed.
 Print Assumptions c10_refuted_junk_move.
 
-Theorem c10_refuted_junk_noop :
-  refutes JunkNoop [OAppend 1 [S_ "kw"]] (OStore false false 1 (one 1) IT_ADD [NONJUNK; SEEN]) 1
-  /\ view (links (run env0 st0 [OAppend 1 [S_ "kw"]; OStore false false 1 (one 1) IT_ADD [NONJUNK; SEEN]])) 1
-     = [(1, [S_ "kw"])].
-Proof. exact refuted_junk_noop. Qed.
-Print Assumptions c10_refuted_junk_noop.
-
-Theorem c10_refuted_same_mailbox_copy :
-  refutes SameMailboxCopy [OAppend 1 [S_ "kw"]; OUidCopy 1 (one 1) 1]
-          (OStore false false 1 (one 1) IT_ADD [S_ "\Flagged"]) 1.
-Proof. exact refuted_same_mailbox_copy. Qed.
-Print Assumptions c10_refuted_same_mailbox_copy.
-
-Theorem c10_refuted_substring :
-  let fl := [NONJUNK; S_ "\Seenish"] in
-  no_proper_super fl JUNK = false /\ no_proper_super_ci fl SEEN = false
-  /\ key_holds (KHas JUNK) fl = true /\ spec_key_holds (KHas JUNK) fl = false
-  /\ key_holds (KHas SEEN) fl = true /\ spec_key_holds (KHas SEEN) fl = false
-  /\ unseen_count [mkLink 1 1 1 fl] 1 = 0 /\ spec_unseen_count [mkLink 1 1 1 fl] 1 = 1.
-Proof. exact refuted_substring. Qed.
-Print Assumptions c10_refuted_substring.
-
-(** ---- non-vacuity: a history with substring twins, \Recent, a copy, EXAMINE
-    used for reading only, that meets every hypothesis above and changes flags ---- *)
+(** ---- non-vacuity: a history with substring twins, \Recent, copies (one
+    inside the same mailbox), an EXAMINE session that tries to write, NonJunk
+    added inside INBOX — it meets every hypothesis above and changes flags ---- *)
 Example c10_history_example :
   let h := [OAppend 1 [SEEN; S_ "kw"]; OAppend 1 [S_ "\Seenish"; NONJUNK]; OUidCopy 1 [(Some 1, None)] 2;
+            OUidCopy 1 (one 2) 1;
             OStore false true 1 [(Some 1, Some 2)] IT_ADD [S_ "\Flagged"; RECENT];
+            OStore true false 1 [(Some 1, None)] IT_FLAGS [DELETED]; OExpunge true 1;
             OUidStore false false 2 [(None, None)] IT_DEL [NONJUNK; S_ "Seen"];
-            OStore false false 1 (one 2) IT_FLAGS [S_ "kw2"]] in
+            OStore false false 1 (one 1) IT_ADD [NONJUNK]] in
   uniq_keys_b (links st0) = true /\ hist_class env0 st0 h = None
-  /\ view (links (run env0 st0 h)) 1 = [(1, [SEEN; S_ "kw"; S_ "\Flagged"]); (2, [S_ "kw2"])]
+  /\ view (links (run env0 st0 h)) 1
+     = [(1, [SEEN; S_ "kw"; S_ "\Flagged"; NONJUNK]); (2, [S_ "\Seenish"; NONJUNK; S_ "\Flagged"]);
+        (3, [S_ "\Seenish"; NONJUNK; RECENT])]
   /\ view (links (run env0 st0 h)) 2 = [(1, [SEEN; S_ "kw"; RECENT]); (2, [S_ "\Seenish"; RECENT])].
 Proof. vm_compute. repeat split. Qed.
 
-Example c10_examine_close_example :
-  view (links (run env0 st0 [OAppend 1 [SEEN]; OStore true false 1 (one 1) IT_ADD [DELETED]; OExpunge true 1])) 1 = []
-  /\ view (links (spec_run env0 st0 [OAppend 1 [SEEN]; OStore true false 1 (one 1) IT_ADD [DELETED]; OExpunge true 1])) 1 = [(1, [SEEN])].
-Proof. exact refuted_examine_close. Qed.
+(** the witnesses of the repaired classes now behave as the statement demands *)
+Example c10_fixed_examine_writes :
+  let h := [OAppend 1 [SEEN]; OStore true false 1 (one 1) IT_ADD [DELETED]; OExpunge true 1] in
+  hist_class env0 st0 h = None /\ view (links (run env0 st0 h)) 1 = [(1, [SEEN])].
+Proof. exact fixed_examine_writes. Qed.
+
+Example c10_fixed_same_mailbox_copy :
+  let h := [OAppend 1 [S_ "kw"]; OUidCopy 1 (one 1) 1; OStore false false 1 (one 1) IT_ADD [S_ "\Flagged"]] in
+  hist_class env0 st0 h = None
+  /\ view (links (run env0 st0 h)) 1 = [(1, [S_ "kw"; S_ "\Flagged"]); (2, [S_ "kw"; RECENT])].
+Proof. exact fixed_same_mailbox_copy. Qed.
+
+Example c10_fixed_junk_same_mailbox :
+  let h := [OAppend 1 [S_ "kw"]; OStore false false 1 (one 1) IT_ADD [NONJUNK; SEEN]] in
+  hist_class env0 st0 h = None /\ view (links (run env0 st0 h)) 1 = [(1, [S_ "kw"; NONJUNK; SEEN])].
+Proof. exact fixed_junk_same_mailbox. Qed.
+
+Example c10_fixed_junk_shift :
+  let h := [OAppend 1 [S_ "a1"]; OAppend 1 [S_ "a2"]; OAppend 1 [S_ "a3"];
+            OStore false false 1 [(Some 1, Some 2)] IT_ADD [JUNK]] in
+  view (links (run env0 st0 h)) 1 = [(3, [S_ "a3"])]
+  /\ view (links (run env0 st0 h)) 5 = [(1, [S_ "a1"; JUNK]); (2, [S_ "a2"; JUNK])].
+Proof. exact fixed_junk_shift. Qed.
+
+Example c10_fixed_substring :
+  let fl := [NONJUNK; S_ "\Seenish"] in
+  key_holds (KHas JUNK) fl = false /\ key_holds (KHas SEEN) fl = false
+  /\ unseen_count [mkLink 1 1 1 fl] 1 = 1 /\ first_unseen [mkLink 1 1 1 fl] 1 = Some 1.
+Proof. exact fixed_substring. Qed.
